@@ -174,7 +174,11 @@ pub fn transform_file(input: &str, output: &str, cfg: &TransformConfig) -> Resul
     };
 
     if output == "-" {
-        transform_stream(&mut in_reader, &mut std::io::stdout(), cfg)?;
+        let mut stdout = std::io::stdout();
+        transform_stream(&mut in_reader, &mut stdout, cfg)?;
+        // (stdout holds back an unfinished line; a failure to write it is an error
+        // as any other, rather than something lost when the process ends)
+        stdout.flush()?;
     } else {
         // (the error is reported for the directory: the random name of the file which
         // could not be created says nothing, and differs from run to run)
